@@ -188,12 +188,14 @@ def make_recorder():
             super().__init__(sock)
             self.rx = []
             self.tx = []
+            self.tx_done = []     # _initial_kex_done at the moment each packet was handed to send_message
 
         def send_message(self, data):
             lock = self._Packetizer__write_lock
             with lock:
                 raw = data.asbytes() if hasattr(data, "asbytes") else bytes(data)
                 self.tx.append((raw[0], self._Packetizer__sequence_number_out))
+                self.tx_done.append(bool(self._initial_kex_done))
                 return super().send_message(data)
 
         def read_message(self):
@@ -478,7 +480,7 @@ def run_real(ctx_repo, kex_name, strict_c, strict_s, script, do_auth=True, do_re
                 "msg": str(t.__dict__.get("first_exc"))[:100] if "first_exc" in t.__dict__ else None,
                 "done": bool(t.initial_kex_done),
                 "agreed": bool(t.agreed_on_strict_kex), "agreed1": agreed1[name],
-                "rx": list(p.rx), "tx": list(p.tx), "seqs": p.seqs(),
+                "rx": list(p.rx), "tx": list(p.tx), "tx_done": list(p.tx_done), "seqs": p.seqs(),
                 "relay": list(e.log),
             }
     finally:
@@ -596,14 +598,14 @@ def oracle(ctx, sc, obs):
                      "initial key exchange (the counter wraps to 0: a later KEXINIT would look like the first "
                      "packet); Packetizer.read_message must raise instead", case=case,
                      expected="SSHException: Sequence number rolled over during initial kex", observed=d)
-        nk_out = [i for i, (t, _) in enumerate(tx) if t == NEWKEYS]
-        nk_in = [i for i, (t, _) in enumerate(rx) if t == NEWKEYS]
+        tx_done = d.get("tx_done") or [False] * len(tx)
         for i, (t, sq) in enumerate(tx):
-            if sq == 0xFFFFFFFF and not nk_in and (not nk_out or i <= nk_out[0]) \
-                    and (i != len(tx) - 1 or d["status"] != 4):
-                # (the recorder logs the packet before send_message raises: it must be the last one)
-                ctx.fail("rollover-in-initial-kex", "a packet was sent under outbound sequence number 2**32-1 during "
-                         "the initial key exchange without ending the connection", case=case,
+            if sq == 0xFFFFFFFF and not tx_done[i] and (i != len(tx) - 1 or d["status"] != 4):
+                # sent while initial_kex_done was still False: send_message must raise (the recorder logs
+                # the packet before calling it), so it has to be the last packet and the transport dead
+                ctx.fail("rollover-in-initial-kex", "packet %d (type %d) was sent under outbound sequence number "
+                         "2**32-1 before the initial key exchange was done, and the connection went on (the "
+                         "counter wraps to 0 during the handshake)" % (i, t), case=case,
                          expected="SSHException: Sequence number rolled over during initial kex", observed=d)
                 break
         if both and rx and rx[0][0] == KEXINIT and rx[0][1] == 0 and not d.get("agreed1", d["agreed"]) \
@@ -756,6 +758,9 @@ def build_scenarios(ctx, kex_names):
                             continue
                         add(kex, sc_, ss_, {}, kind="rollover-in", preset={side + "_in": M - back})
                     add(kex, True, True, {}, kind="rollover-out", preset={side + "_out": M - back})
+                    if back > nin - 1 or ctx.thorough:
+                        # not strict: no reset, the server's EXT_INFO is still part of the initial exchange
+                        add(kex, False, False, {}, kind="rollover-out", preset={side + "_out": M - back})
                 for sc_, ss_ in ((True, True), (False, False)):
                     # 2**32 - 1 packets swallowed, one more ahead of the peer's KEXINIT: KEXINIT would carry 0
                     add(kex, sc_, ss_, {(d_to, 0): [("inject", IGNORE)]}, kind="rollover-in",
